@@ -338,6 +338,16 @@ class InPlace:
                 interp.setattr(obj, k, v)
 
 
+class InPlaceBy:
+    """`modifies` entry: the object is havocked in place by fn(interp, obj, tag) (engine API)."""
+
+    def __init__(self, fn):
+        self.fn = fn
+
+    def havoc_in_place(self, interp, obj, tag):
+        self.fn(interp, obj, tag)
+
+
 def make_indexed(interp, ty, uid, idx_term):
     """Element of an SList at a symbolic index: scalar fields become applications of
     uninterpreted functions to the index, so equal indices give equal elements."""
